@@ -1,2 +1,3 @@
+pub mod c06;
 pub mod c14;
 pub mod misc;
